@@ -8,9 +8,13 @@ META = {
             "as a nondeterministic label), for every reachable state: exclusion, no_missed_wakeup, drain (measure argument, any release order), cancel_clean "
             "(both sides of the grant/cancel coincidence), tables_exact, holders_are_granted.  The model is tied to the real command.NewDefaultLocker() by an "
             "operation-sequence differential (trace inclusion: what the real locker did must be one of the model's resolutions), and an independent oracle "
-            "evaluates the property on the observed returns and releases alone.",
+            "evaluates the property on the observed returns and releases alone.  Coincidences of grant and cancellation are forced at both places where "
+            "they can happen: at the select (a context whose Done() parks the request there while its blockers release and it is cancelled), and at the "
+            "locker's mutex ('handover': the harness holds the mutex until a release and the cancellation path of a waiter are both parked on it, in either "
+            "order; with the release first the waiter runs its cancellation path having been granted after it left the select — one model resolution only).",
     "note": "Trusted: Lean kernel (axioms propext/Classical.choice/Quot.sound at most); the reading of lock.go as atomic sections delimited by the mutex; "
-            "the Go runtime's select/channel/mutex semantics (the model takes the select's choice among ready cases as nondeterministic); the harness. "
+            "the Go runtime's select/channel/mutex semantics (the model takes the select's choice among ready cases as nondeterministic; sync.Mutex "
+            "serves goroutines parked on it first in, first out when nobody else asks for it); the harness. "
             "Not modelled: unlock functions called twice, and — on the code as found only — the unsynchronised RemoveValue racing with recheck "
             "(-race output is reported as supporting evidence in the thorough tier).",
     "technique": "Lean 4 proof by induction over operation sequences (inductive invariant) + differential correspondence with DefaultLocker",
@@ -33,7 +37,7 @@ def oracle(inp, out):
     if "panic" in out:
         return [({"class": "panic"}, "the lock manager panicked: %s" % out["panic"])]
     v = []
-    reqs, holders, waiting, aborted, cancelled = {}, set(), set(), {}, set()
+    reqs, holders, waiting, aborted, cancelled, aborted_at, first_leak = {}, set(), set(), {}, set(), {}, {}
 
     def returns(ret, k, kind):
         for sid, how in sorted(ret.items(), key=lambda kv: int(kv[0])):
@@ -46,17 +50,25 @@ def oracle(inp, out):
                 holders.add(i)
             elif how == "err":
                 aborted[i] = kind
+                aborted_at[i] = k
                 if i not in cancelled:
                     v.append(({"class": "error-without-cancellation"}, "step %d: request %d got an error although its context was not cancelled" % (k, i)))
             else:
                 v.append(({"class": "bad-return", "how": how}, "step %d: request %d returned %s" % (k, i, how)))
 
-    def blame(cands):
-        """which abandoned request to name: one whose cancellation coincided with a grant, if there is one"""
-        prio = {"select-entry": 0, "concurrent-release": 1}
-        return sorted(cands, key=lambda a: (prio.get(aborted[a], 2), a))
+    def blame(cands, tables=None):
+        """which abandoned request to name (the violation is reported whatever is named here): one that was abandoned in the very step
+        after which the observed tables first held one of its accounts beyond what the holders account for, if there is one; one whose
+        accounts are all still in the observed tables; then one whose cancellation coincided with a grant, then the most recent"""
+        at = [a for a in cands if any(first_leak.get(x) == aborted_at[a] for x in reqs[a][0] + reqs[a][1])]
+        cands = at or cands
+        if tables is not None:
+            still = [a for a in cands if set(reqs[a][0]) <= set(tables[0]) and set(reqs[a][1]) <= set(tables[1]) and (reqs[a][0] or reqs[a][1])]
+            cands = still or cands
+        prio = {"select-entry": 0, "release-in-progress": 0, "concurrent-release": 1}
+        return sorted(cands, key=lambda a: (prio.get(aborted[a], 2), -aborted_at[a], a))
 
-    def check(k, kind):
+    def check(k, kind, tables=None):
         hs = sorted(holders)
         for n, a in enumerate(hs):
             for b in hs[n + 1:]:
@@ -66,7 +78,7 @@ def oracle(inp, out):
             if w in cancelled:
                 continue
             if all(not conflicts(reqs[w], reqs[h]) for h in hs):
-                culprit = blame([a for a in sorted(aborted) if conflicts(reqs[w], reqs[a])])
+                culprit = blame([a for a in sorted(aborted) if conflicts(reqs[w], reqs[a])], tables)
                 if culprit:
                     v.append(({"class": "cancel-leak", "moment": aborted[culprit[0]]},
                               "step %d: request %d %s still waits although it conflicts with no holder (holders %s); request %d %s, abandoned through "
@@ -107,6 +119,11 @@ def oracle(inp, out):
             cancelled.add(op["r"])
             holders.discard(op["b"])
             returns(st["ret"], k, "concurrent-release")
+        elif kind == "handover":
+            cancelled.add(op["r"])
+            holders.discard(op["b"])
+            # first=release: the request runs its cancellation path after a release that was already on its way got the mutex
+            returns(st["ret"], k, "release-in-progress" if op.get("first") != "cancel" and st["res"] == "handover" else "cancel")
         elif kind == "drain":
             for sub in st.get("sub", []):
                 holders.discard(sub["rel"])
@@ -114,14 +131,19 @@ def oracle(inp, out):
                 check(k, kind)
             if holders and "dead" not in out:
                 v.append(({"class": "harness-bookkeeping"}, "step %d: drain left holders %s" % (k, sorted(holders))))
-        check(k, kind)
+        # accounts the observed tables hold beyond what the current holders account for: remember the step they first showed
+        for a in set(st.get("rl", {})) | set(st.get("wl", [])):
+            nread = sum(reqs[h][0].count(a) for h in holders)
+            if (a in st.get("wl", []) and not any(a in reqs[h][1] for h in holders)) or int(st.get("rl", {}).get(a, 0)) > nread:
+                first_leak.setdefault(a, k)
+        check(k, kind, (st.get("rl", {}), st.get("wl", [])))
     if "dead" in out:
         v.append(({"class": "stuck"}, "after %d steps: %s" % (len(steps), out["dead"])))
     elif steps and inp["ops"] and inp["ops"][-1]["op"] == "drain" and len(steps) == len(inp["ops"]):
         last = steps[-1]
         if last["rl"] or last["wl"]:
             left = set(last["rl"]) | set(last["wl"])
-            culprit = blame([a for a in aborted if left & (set(reqs[a][0]) | set(reqs[a][1]))])
+            culprit = blame([a for a in aborted if left & (set(reqs[a][0]) | set(reqs[a][1]))], (last["rl"], last["wl"]))
             v.append(({"class": "residue", "moment": aborted[culprit[0]] if culprit else "none"},
                       "every holder has released, yet the tables still hold read=%s write=%s (abandoned requests: %s)" % (last["rl"], last["wl"], culprit)))
     # one entry per signature
@@ -217,7 +239,8 @@ def run(ctx):
         "Model.Lock reads lock.go as atomic sections delimited by DefaultLocker.mu (tryLock / unlock+recheck / the repaired cancellation path) and "
         "takes Go's choice among ready select cases as a nondeterministic label; tied to the real DefaultLocker by the differential only",
         "Go runtime semantics of mutex, channel close and select; the harness (contexts whose Done() is the yield point before the select; "
-        "overlay export VerifView/VerifQueueLen reading the unexported tables under the mutex)",
+        "overlay export VerifView/VerifQueueLen reading the unexported tables under the mutex, VerifMu handing out the mutex itself; "
+        "'parked on the mutex' read from runtime.Stack: wait reason sync.Mutex.Lock with a frame of DefaultLocker)",
     ]
     ctx.l1()
     if not (ctx.ensure_driver() and ctx.ensure_harness()):
@@ -248,7 +271,8 @@ def run(ctx):
     # ---- L2: trace inclusion
     matched, mism, choice_hist = 0, 0, {}
     stats = {"select_both_ready": 0, "select_took_grant": 0, "select_took_ctx": 0, "race": 0, "race_request_got_lock": 0, "race_request_got_error": 0,
-             "paths_per_sequence_max": 0}
+             "handover": 0, "handover_release_first_request_was_granted": 0, "handover_release_first_request_still_queued": 0,
+             "handover_cancel_first": 0, "handover_order_forced": 0, "sequences_with_granted_handover": 0, "paths_per_sequence_max": 0}
     for inp in inputs:
         out, mod = impl.get(inp["id"]), model.get(inp["id"])
         m = match(out, mod) if out is not None and mod is not None else None
@@ -264,6 +288,15 @@ def run(ctx):
         key = "|".join(path["choices"]) or "-"
         if len(key) <= 12:
             choice_hist[key] = choice_hist.get(key, 0) + 1
+        hg = False
+        for op, st, real in zip(inp["ops"], path["steps"], out["steps"]):
+            if st["nd"].startswith("handover"):
+                stats["handover"] += 1
+                stats[{"handover-granted": "handover_release_first_request_was_granted", "handover-queued": "handover_release_first_request_still_queued",
+                       "handover-cancel-first": "handover_cancel_first"}[st["nd"]]] += 1
+                stats["handover_order_forced"] += real.get("ho") == "both-parked"
+                hg = hg or st["nd"] == "handover-granted"
+        stats["sequences_with_granted_handover"] += hg
         for op, st in zip(inp["ops"], path["steps"]):
             if st["nd"] == "select":
                 stats["select_both_ready"] += 1
@@ -297,7 +330,8 @@ def run(ctx):
         # counters
         queued, granted_later, cancelled_later = set(), False, False
         for op, st in zip(inp["ops"], out.get("steps", [])):
-            dist["ops"][op["op"] + ("+hold" if op.get("hold") else "")] = dist["ops"].get(op["op"] + ("+hold" if op.get("hold") else ""), 0) + 1
+            opk = op["op"] + ("+hold" if op.get("hold") else "") + ("(%s first)" % op.get("first", "release") if op["op"] == "handover" else "")
+            dist["ops"][opk] = dist["ops"].get(opk, 0) + 1
             if op["op"] == "arrive":
                 dist["requests"] += 1
                 rd, wr = op.get("read", []), op.get("write", [])
@@ -326,7 +360,7 @@ def run(ctx):
     ctx.cov["rule"] = ("seeded operation sequences against the real DefaultLocker (<= %d operations, <= 6 accounts, <= 8 requests; arrive / release / cancel in "
                        "every order, arbitrary read and write sets incl. an account in both, duplicates, empty sets, contexts cancelled before the call, releases "
                        "by non-holders; a request kept at the entry of its select while its blockers release and its context is cancelled; cancel and release "
-                       "issued concurrently), each ended by 'every holder releases until none is left'; corpus lines run %d times each; "
+                       "issued concurrently; cancel and release made to queue on the locker's mutex in either order before either runs), each ended by 'every holder releases until none is left'; corpus lines run %d times each; "
                        "non-trivial = distinct sequence in which a request was queued and later granted or cancelled"
                        % (12 if ctx.quick else 40, REPEAT_CORPUS))
     ctx.cov["samples"] = [{"input": i, "impl": impl.get(i["id"])} for i in inputs[ncorpus:ncorpus + 2]] + \
@@ -335,7 +369,10 @@ def run(ctx):
     ctx.cov["coincidences"] = dict(stats, matched_choice_strings=dict(sorted(choice_hist.items(), key=lambda kv: -kv[1])[:12]),
                                    note="select_*: the request stood at the entry of its select with both acquired and ctx.Done() ready (set up "
                                         "deterministically through the context's Done() method); which case Go took is counted, both are legal model transitions. "
-                                        "race_*: cancel and release issued from two goroutines while the request was parked.")
+                                        "race_*: cancel and release issued from two goroutines while the request was parked. "
+                                        "handover_*: cancel and release issued while the harness holds the locker's mutex, released only when both are parked "
+                                        "on it in the wanted order (handover_order_forced = both were seen parked); release first: the request runs its "
+                                        "cancellation path after the release — was_granted = that release had granted it, so it had to give the accounts back.")
     ctx.assumptions += [
         "an unlock function is called at most once, and only by the caller that received it",
         "mutex-delimited sections of lock.go are atomic; the select's choice among ready cases is arbitrary",
@@ -382,16 +419,22 @@ def contract_for(ctx, prop, n):
         return 0
     impl, _, _ = r
     classes = collections.Counter()
+    forced = collections.Counter()
     for inp in inputs:
         out = impl.get(inp["id"])
         if out is None:
             continue
+        for op, st in zip(inp["ops"], out.get("steps", [])):
+            if op["op"] == "handover" and st.get("res") == "handover":
+                forced["handover(%s first)" % op.get("first", "release")] += 1
+                forced["handover_order_forced"] += st.get("ho") == "both-parked"
         for sig, what in oracle(inp, out):
             classes[sig.get("class")] += 1
             ctx.violation(dict(sig, property=prop, component="DefaultLocker"), "the account locker breaks its contract: " + what,
                           {"area": "lock", "input": {k: v for k, v in inp.items() if k not in ("id", "corpus")}, "observed": out,
                            "note": "the select's choice is Go's own: --replay runs the input %d times" % REPEAT_REPLAY})
-    ctx.cov["locker_contract"] = {"sequences": len(inputs), "violations_by_class": dict(classes),
-                                  "rule": "op sequences (arrive / release / cancel, coincidences of grant and cancellation forced) through the real "
+    ctx.cov["locker_contract"] = {"sequences": len(inputs), "violations_by_class": dict(classes), "coincidences_at_the_mutex": dict(forced),
+                                  "rule": "op sequences (arrive / release / cancel, coincidences of grant and cancellation forced: at the select, and at the locker's "
+                                          "mutex — a release and a cancellation path queued on it in either order) through the real "
                                           "command.DefaultLocker; exclusion, no missed wake-up, cancellation leaves nothing behind"}
     return len(inputs)
